@@ -20,6 +20,18 @@ type sfieldG struct {
 	Omit         bool
 	Type         *T
 	Emb          *sdecl // non-nil: an embedded struct
+	Ignore       bool   // declared with json:"-": not part of the encoding (and not of the model's declaration)
+}
+
+// live: the fields encoding/json looks at
+func (d *sdecl) live() []sfieldG {
+	var out []sfieldG
+	for _, f := range d.Fields {
+		if !f.Ignore {
+			out = append(out, f)
+		}
+	}
+	return out
 }
 
 // declSource: the helper types (embedded structs, innermost first) and the body of the model struct itself
@@ -43,6 +55,9 @@ func (d *sdecl) body() string {
 		if f.Omit {
 			tag += ",omitempty"
 		}
+		if f.Ignore {
+			tag = "-"
+		}
 		fmt.Fprintf(&b, "\t%s %s `json:\"%s\"`\n", f.GoName, f.Type.Go(), tag)
 	}
 	return b.String()
@@ -56,7 +71,7 @@ type dentry struct {
 // entries: every reachable field with its depth, in declaration order (encoding/json's index order)
 func (d *sdecl) entries(depth int) []dentry {
 	var out []dentry
-	for _, f := range d.Fields {
+	for _, f := range d.live() {
 		if f.Emb != nil {
 			out = append(out, f.Emb.entries(depth+1)...)
 		} else {
@@ -69,12 +84,12 @@ func (d *sdecl) entries(depth int) []dentry {
 // writes: the order in which the scanner writes properties (embedded members first, then declared fields)
 func (d *sdecl) writes(depth int) []dentry {
 	var out []dentry
-	for _, f := range d.Fields {
+	for _, f := range d.live() {
 		if f.Emb != nil {
 			out = append(out, f.Emb.writes(depth+1)...)
 		}
 	}
-	for _, f := range d.Fields {
+	for _, f := range d.live() {
 		if f.Emb == nil {
 			out = append(out, dentry{depth, f.JSON})
 		}
@@ -95,7 +110,7 @@ func (d *sdecl) names() map[string]bool {
 func (d *sdecl) disjoint() bool {
 	own := map[string]bool{}
 	var embs []map[string]bool
-	for _, f := range d.Fields {
+	for _, f := range d.live() {
 		if f.Emb != nil {
 			if !f.Emb.disjoint() {
 				return false
@@ -161,19 +176,66 @@ func (d *sdecl) tieNames() map[string]bool {
 	return out
 }
 
+func (d *sdecl) hasIgnored() bool {
+	for _, f := range d.Fields {
+		if f.Ignore || (f.Emb != nil && f.Emb.hasIgnored()) {
+			return true
+		}
+	}
+	return false
+}
+
+// droppedKeys: the JSON names of promoted fields whose Go name an enclosing struct re-declares with json:"-" — the scanner drops
+// them from the definition ("field with different name removes tag", pinned by TestOverridingOneIgnore), encoding/json keeps them
+func (d *sdecl) droppedKeys() map[string]bool {
+	out := map[string]bool{}
+	var goNames func(x *sdecl, m map[string]string)
+	goNames = func(x *sdecl, m map[string]string) {
+		for _, f := range x.live() {
+			if f.Emb != nil {
+				goNames(f.Emb, m)
+			} else {
+				m[f.GoName] = f.JSON
+			}
+		}
+	}
+	var walk func(x *sdecl)
+	walk = func(x *sdecl) {
+		promoted := map[string]string{}
+		for _, f := range x.live() {
+			if f.Emb != nil {
+				goNames(f.Emb, promoted)
+				walk(f.Emb)
+			}
+		}
+		for _, f := range x.Fields {
+			if f.Ignore {
+				if j, ok := promoted[f.GoName]; ok {
+					out[j] = true
+				}
+			}
+		}
+	}
+	walk(d)
+	return out
+}
+
 func (d *sdecl) class() string {
+	if d.hasIgnored() {
+		return "declared-embedding:promoted-go-name-redeclared-with-json-dash"
+	}
 	switch {
 	case d.disjoint():
 		shadow := false
 		var walk func(x *sdecl)
 		walk = func(x *sdecl) {
 			own := map[string]bool{}
-			for _, f := range x.Fields {
+			for _, f := range x.live() {
 				if f.Emb == nil {
 					own[f.JSON] = true
 				}
 			}
-			for _, f := range x.Fields {
+			for _, f := range x.live() {
 				if f.Emb != nil {
 					for n := range f.Emb.names() {
 						shadow = shadow || own[n]
@@ -203,8 +265,11 @@ func (d *sdecl) keys() []string {
 }
 
 func (d *sdecl) coq() (string, bool) {
+	if d.hasIgnored() {
+		return "", false // json:"-" re-declarations are outside the fragment of Scan/Embed.v
+	}
 	var fs []string
-	for _, f := range d.Fields {
+	for _, f := range d.live() {
 		if f.Emb != nil {
 			e, ok := f.Emb.coq()
 			if !ok {
@@ -234,6 +299,9 @@ func (d *sdecl) flattenTree(g interface{}) ([]string, bool) {
 	}
 	var out []string
 	for i, f := range d.Fields {
+		if f.Ignore {
+			continue
+		}
 		if f.Emb != nil {
 			sub, ok := f.Emb.flattenTree(l[i])
 			if !ok {
@@ -258,7 +326,7 @@ var declTypes = []func() *T{
 }
 
 // randomDecl: mode 0 = names unique over the whole declaration; 1 = unique, then declared fields re-use promoted names (shadowing);
-// 2 = a pool of four names, anything goes
+// 2 = a pool of four names, anything goes; 3 = unique JSON names, declared fields re-use the Go names of promoted fields
 func randomDecl(r *rng.R, prefix string, mode int) *sdecl {
 	counter, types := 0, 0
 	pool := []string{"v", "w", "x", "y"}
@@ -312,6 +380,21 @@ func randomDecl(r *rng.R, prefix string, mode int) *sdecl {
 				d.Fields = append(d.Fields, sfieldG{JSON: n, GoName: "S" + strings.ToUpper(n), Omit: r.Chance(1, 3), Type: declTypes[r.Intn(len(declTypes))]()})
 			}
 		}
+		if mode == 3 {
+			// a declared field takes the Go name of a promoted field and a JSON name of its own: the Go selector is shadowed,
+			// the encoding keeps both members (encoding/json resolves conflicts by JSON name only)
+			var promoted []string
+			for _, f := range d.Fields {
+				if f.Emb != nil {
+					promoted = append(promoted, f.Emb.keys()...)
+				}
+			}
+			if len(promoted) > 0 {
+				n := r.Pick(promoted)
+				d.Fields = append(d.Fields, sfieldG{JSON: fmt.Sprintf("g%d", counter), GoName: "F" + strings.ToUpper(n), Omit: r.Chance(1, 3), Type: declTypes[r.Intn(len(declTypes))]()})
+				counter++
+			}
+		}
 		if len(d.Fields) == 0 {
 			d.Fields = append(d.Fields, sfieldG{JSON: "only", GoName: "FONLY", Type: sc("string")})
 		}
@@ -337,8 +420,13 @@ func declFeatures(r *rng.R, first, n int) []feature {
 	add(&sdecl{Fields: []sfieldG{emb(leaf(p(1, "Shallow"), own("v", sc("string")))), emb(leaf(p(1, "Mid"), emb(leaf(p(1, "Deep"), own("v", sc("int8")), own("w", sc("bool"))))))}})
 	add(&sdecl{Fields: []sfieldG{emb(leaf(p(2, "Mid"), emb(leaf(p(2, "Deep"), own("v", sc("int8")), own("w", sc("bool")))))), emb(leaf(p(2, "Shallow"), own("v", sc("string"))))}})
 	add(&sdecl{Fields: []sfieldG{emb(leaf(p(3, "A"), own("v", sc("string")))), emb(leaf(p(3, "B"), own("v", sc("int8")), own("w", sc("bool"))))}})
+	// the Go name of a promoted field re-declared under another JSON name, one and two levels up
+	add(&sdecl{Fields: []sfieldG{emb(leaf(p(4, "Sensor"), own("value", sc("int32")))), sfieldG{JSON: "calibrated", GoName: "FVALUE", Type: sc("string")}}})
+	add(&sdecl{Fields: []sfieldG{emb(leaf(p(5, "Mid"), emb(leaf(p(5, "Deep"), own("v", sc("int8")), own("w", sc("bool")))))), sfieldG{JSON: "other", GoName: "FV", Omit: true, Type: slice(sc("string"))}}})
+	// the Go name of a promoted field re-declared with json:"-": encoding/json skips the declared field and still promotes the embedded one
+	add(&sdecl{Fields: []sfieldG{emb(leaf(p(6, "Simple"), own("id", sc("int64")), own("age", sc("int32")))), sfieldG{JSON: "-", GoName: "FAGE", Type: sc("int32"), Ignore: true}}})
 	for i := 0; i < n; i++ {
-		add(randomDecl(r, fmt.Sprintf("M%d", first+len(out)), i%3))
+		add(randomDecl(r, fmt.Sprintf("M%d", first+len(out)), i%4))
 	}
 	return out
 }
